@@ -656,6 +656,15 @@ class OpaqueTypes(Plugin):
             return '(%s = %s)' % (unit.expr(args[0]), unit.expr(args[1]))
         if rd.get('name') == 'operator->' and len(args) == 1 and self._scalar_it(unit, args[0]):
             return 'v_map_it_deref(%s)' % unit.expr(args[0])
+        if rd.get('name') == 'operator=' and len(args) == 2 and (self._ct(unit, args[0]) or '').startswith('struct '):
+            # assignment of an opaque library object: stub `<struct>__reset(obj)` (from a default-constructed temporary) or `<struct>__assign(obj, src)`
+            ct = self._ct(unit, args[0]); sx = unit.strip_tmp(args[1])
+            while sx['kind'] in ('ImplicitCastExpr', 'MaterializeTemporaryExpr', 'CXXBindTemporaryExpr', 'CXXFunctionalCastExpr') and unit.kids(sx): sx = unit.strip_tmp(unit.kids(sx)[0])
+            if sx['kind'] in ('CXXConstructExpr', 'CXXTemporaryObjectExpr') and not unit.kids(sx):
+                fn = '%s__reset' % ct[len('struct '):]; unit.count_call(fn)
+                return '%s(%s)' % (fn, unit.addr_of(args[0]))
+            fn = '%s__assign' % ct[len('struct '):]; unit.count_call(fn)
+            return '%s(%s, %s)' % (fn, unit.addr_of(args[0]), unit.addr_of(args[1]))
         return None
     def member_access(self, unit, n, base_text):
         # it->second of an opaque map iterator: the mapped value lives behind a stub `<T> *v_map_it_second(it)`
